@@ -167,6 +167,76 @@ def optimalImpl (cfg : Cfg) (cols : List Col) (n : List Nat) (start : Nat) (cur0
           (setupRow cols width (offs.getD 1 0) n0 n1 (prefix_bonus_init cfg.preferPrefix start) cur0 cells0))
   | _ => none
 
+/-! ### what would panic: the side conditions of the index arithmetic
+
+`u16` / `usize` subtraction panics on underflow (overflow checks) or wraps, a slice range outside its slice panics.  The
+model computes with truncated subtraction and total list operations, so these conditions are stated separately, one
+conjunct per Rust expression, and `Props/C10_Matrix.lean` proves them for every call the model makes. -/
+
+/-- one `score_row` call -/
+def scoreRowSafe (curLen cellsLen colsLen rowOff nextRowOff needleIdx : Nat) : Bool :=
+  decide (1 ≤ nextRowOff) &&                              -- next_row_off -= 1
+  decide (needleIdx ≤ rowOff) &&                          -- row_off - needle_idx
+  decide (needleIdx ≤ nextRowOff - 1) &&                  -- next_row_off - needle_idx
+  decide (rowOff ≤ nextRowOff - 1) &&                     -- haystack[row_off..next_row_off], bonus[..], current_row[rel..next_rel]
+  decide (nextRowOff - 1 ≤ colsLen) &&                    -- haystack[next_row_off..], bonus[next_row_off..]
+  decide (nextRowOff - 1 - needleIdx ≤ curLen) &&         -- current_row[next_rel..]
+  decide (nextRowOff - 1 - rowOff ≤ cellsLen)             -- matrix_cells[(next_rel - rel)..]
+
+/-- the loop of `populate_matrix` (same recursion as `populateGo`): each `score_row` call, `len = width + needle_idx + 1
+    - row_off`, `matrix_cells[len..]` -/
+def populateSafe (cols : List Col) (width : Nat) : Nat → List Nat → List Nat → PState → Bool
+  | i, nc :: nnc :: ns, ro :: nro :: offs, s =>
+    scoreRowSafe s.cur.length (s.cells.length - s.off) cols.length ro nro i &&
+    decide (ro ≤ width + i) && decide (s.off + (width + i - ro) ≤ s.cells.length) &&
+    populateSafe cols width (i + 1) (nnc :: ns) (nro :: offs) (rowStep false cols width s ro nro i nc nnc 0)
+  | _, _, _, _ => true
+
+/-- the loop of `reconstruct_optimal_path` (same recursion as `traceGo`): `row[col]` inside the row's segment, the
+    segment inside `matrix_cells[..matrix_len]`, `col += row_off - next_row_off`, `col -= 1`; running out of fuel counts
+    as unsafe (the loop must end) -/
+def traceSafe (cells : List MatrixCell) (width : Nat) (offs : List Nat) : Nat → TState → Bool
+  | 0, _ => false
+  | fuel + 1, t =>
+    let rowOff := offs.getD t.rowIdx 0
+    let here := decide (t.rowIdx ≤ rowOff) && decide (rowOff - t.rowIdx ≤ width) &&            -- off - i, width - relative_off
+      decide (t.col < width - (rowOff - t.rowIdx)) &&                                               -- row[col]
+      decide (segOf width offs cells.length t.rowIdx + (width - (rowOff - t.rowIdx)) ≤ cells.length) -- the segment split off the end
+    let next := (cells.getD (segOf width offs cells.length t.rowIdx + t.col) default).get t.matched
+    if t.matched then
+      match t.rowIdx with
+      | 0 => here
+      | r + 1 => here && decide (offs.getD r 0 ≤ rowOff) && decide (1 ≤ t.col + (rowOff - offs.getD r 0)) &&
+          traceSafe cells width offs fuel ⟨r, t.col + (rowOff - offs.getD r 0) - 1, next, []⟩
+    else here && decide (1 ≤ t.col) && traceSafe cells width offs fuel ⟨t.rowIdx, t.col - 1, next, []⟩
+
+/-- the whole of `fuzzy_match_optimal` after `alloc` (indices variant) -/
+def optimalSafe (cfg : Cfg) (cols : List Col) (n : List Nat) (start : Nat) (cur0 : List ScoreCell) (cells0 : List MatrixCell) : Bool :=
+  match n with
+  | n0 :: n1 :: ns =>
+    let offs := rowOffs n cols
+    if offs.length ≠ n.length then true         -- `setup` returns false, nothing else happens
+    else
+      let N := n.length
+      let width := cols.length + 1 - N
+      let s0 := setupRow cols width (offs.getD 1 0) n0 n1 (prefix_bonus_init cfg.preferPrefix start) cur0 cells0
+      let s := populateGo cols width 1 (n1 :: ns) offs.tail s0
+      let lastOff := offs.getD (N - 1) 0
+      let relLast := lastOff + 1 - N
+      decide (N ≤ cols.length + 1) &&                                                             -- haystack_len + 1 - needle_len
+      scoreRowSafe cur0.length cells0.length cols.length 0 (offs.getD 1 0) 0 &&                    -- setup's score_row
+      decide (width ≤ cells0.length) &&                                                           -- matrix_cells[current_row.len()..]
+      populateSafe cols width 1 (n1 :: ns) offs.tail s0 &&
+      decide (N ≤ lastOff + 1) && decide (relLast < s.cur.length) &&                               -- last_row_off + 1 - needle.len(); a non-empty last row
+      (match maxByScore (s.cur.drop relLast) 0 none with
+       | none => false
+       | some (e, _) =>
+         let rowOff := offs.getD (N - 2) 0
+         decide (e + relLast < s.cur.length) && decide (rowOff + 1 ≤ lastOff) && decide (s.off ≤ s.cells.length) &&
+         traceSafe (s.cells.take s.off) width offs (cols.length + N + 1)
+           ⟨N - 2, e + (lastOff - rowOff) - 1, (s.cur.getD (e + relLast) default).matched, []⟩)
+  | _ => true
+
 /-- what `fuzzy_match_optimal` leaves in the scratch memory once `populate_matrix` has returned: the row offsets, the
     last row of the score matrix from its offset on, and the back-pointer cells written (`matrix_cells[..matrix_len]`);
     `none` when `setup` finds no match -/
